@@ -175,8 +175,12 @@ class Gen:
     if k < 0.55:
       return ("tuple", [self.expr(names, depth - 1, hashable, in_func) for _ in range(r.randint(0, 3))])
     if k < 0.61 and not hashable:
-      return ("dict", [(self.expr(names, depth - 1, True, in_func), self.expr(names, depth - 1, False, in_func))
-                       for _ in range(r.randint(0, 2))])
+      items = [(self.expr(names, depth - 1, True, in_func), self.expr(names, depth - 1, False, in_func))
+               for _ in range(r.randint(0, 2))]
+      # pytype's constant folding keeps one entry per equal literal key (a Python dict): avoid equal literal keys
+      if len(items) == 2 and lit_key(items[0][0]) is not None and lit_key(items[0][0]) == lit_key(items[1][0]):
+        items = items[:1]
+      return ("dict", items)
     if k < 0.65 and not hashable:
       return ("set", [self.expr(names, depth - 1, True, in_func) for _ in range(r.randint(1, 3))])
     if hashable:
@@ -343,6 +347,27 @@ class Gen:
         ss, defined, _ = self.block(defined, gpool, 0, None, 1)
         prog.extend(ss)
     return prog
+
+
+def lit_key(e):
+  """the Python value of a literal (tuples of literals included), None for non-literals"""
+  t = e[0]
+  if t == "int":
+    return ("v", e[1])
+  if t == "float":
+    return ("v", e[1] / 2.0)
+  if t == "bool":
+    return ("v", e[1])
+  if t == "str":
+    return ("s", e[1])
+  if t == "bytes":
+    return ("b", e[1])
+  if t == "none":
+    return ("n",)
+  if t == "tuple":
+    ks = [lit_key(x) for x in e[1]]
+    return None if any(k is None for k in ks) else ("t", tuple(ks))
+  return None
 
 
 def generate(r, n_stmts, features=None):
